@@ -95,9 +95,14 @@ def frame(obj, *, ascii_escape=False, header_order="LT", extra_headers=()) -> by
 # --------------------------------------------------------------------------
 class _FakeResult:
     def __init__(self, fn, args):
+        import pickle
+
         self.fn, self.args = fn, args
         try:
-            self.val, self.exc = fn(*args), None
+            # like the real pool: arguments and result cross a process boundary by pickle, so the
+            # task cannot mutate the parent's objects and results share nothing with each other
+            args = pickle.loads(pickle.dumps(args))
+            self.val, self.exc = pickle.loads(pickle.dumps(fn(*args))), None
         except Exception as e:  # what Pool would re-raise from get()
             self.val, self.exc = None, e
 
